@@ -98,6 +98,7 @@ def random_script(flavour, seed, nops=28):
     dirs = {'': ('', '')}            # iso dir path -> (rr name of the dir itself, joliet path)
     files = {}                       # iso path -> dict(j=[joliet paths], cid, links=[other iso paths])
     contents = 0
+    symlinks = []
     ops = []
     counter = [0]
 
@@ -148,7 +149,7 @@ def random_script(flavour, seed, nops=28):
             for other in [p for p, g in files.items() if g['cid'] == f['cid']]:
                 files.pop(other)
         elif r < 0.75:
-            empties = [d for d in dirs if d and not any(p.startswith(d + '/') for p in list(files) + list(dirs))
+            empties = [d for d in dirs if d and not any(p.startswith(d + '/') for p in list(files) + list(dirs) + symlinks)
                        and not any(jp and jp.startswith(dirs[d][1] + '/') for g in files.values() for jp in g['j'])]
             if not empties:
                 continue
@@ -176,6 +177,7 @@ def random_script(flavour, seed, nops=28):
             ip = '%s/S%d.;1' % (d, k)
             target = rnd.choice(['a', '/', '../x', './a/../b', 'c' * 255, '/'.join('p%d' % i for i in range(rnd.randint(2, 70))), 'q' * 300 + '/r', '/abs/' + 'z' * 100])
             ops.append(('symlink', ip, rrname(k), target))
+            symlinks.append(ip)
         else:
             ip = rnd.choice(sorted(files))
             ops.append(('hide', ip))
@@ -592,6 +594,8 @@ class Reopened(Base):
             # the removal of an EMPTY file from an opened image is the subject of the 'empty-files' script (K21); elsewhere take a
             # file with content when there is one
             files = [p for p in files if content_m[iso_m[p][1]]] or sorted(p for p, v in iso_m.items() if v[0] == 'file' and content_m[v[1]])
+            if not files and not self.script.startswith('random:'):
+                files = sorted(p for p, v in iso_m.items() if v[0] == 'file' and p.count('/') == 1)
         extra = c.bytes('extra_content', 10)
         ops = []
         if files:
@@ -680,13 +684,80 @@ UDF_SCRIPTS = {
     'udf-remove': (dict(udf='2.60'), [('file', '/A.;1', '/a', 5), ('file', '/B.;1', '/b', 6), ('dir', '/D', '/d'), ('dir', '/G', '/g'),
                                       ('rm_file', '/A.;1', '/a'), ('rm_dir', '/D', '/d'), ('file', '/C.;1', '/c', 2049)]),
     'udf-many': (dict(udf='2.60'), [('file', '/F%03d.;1' % i, '/file-number-%03d-with-a-long-name' % i, 1) for i in range(45)]),
+    # every user of a Rock Ridge continuation block is removed again (the block must go with them), two empty files (K45/K46)
+    'udf-rr-ce-orphan': (dict(udf='2.60', rock_ridge='1.09'), [('file', '/A.;1', '/' + 'a' * 120 + '\u4e2d', 1), ('file', '/B.;1', '/' + 'b' * 110 + '\u00e9', 2049), ('file', '/C.;1', '/c', 5),
+                                                               ('file', '/E1.;1', '/empty one', 0), ('file', '/E2.;1', '/empty two', 0),
+                                                               ('rm_file', '/A.;1', '/' + 'a' * 120 + '\u4e2d'), ('rm_file', '/B.;1', '/' + 'b' * 110 + '\u00e9'),
+                                                               ('dir', '/D', '/d\u00e9'), ('rm_dir', '/D', '/d\u00e9'), ('dir', '/G', '/g')]),
     'udf-symlink': (dict(udf='2.60', rock_ridge='1.09'), [('file', '/A.;1', '/a', 5), ('dir', '/D', '/d'), ('symlink', '/S.;1', '/s', 'd/../a'),
                                                           ('symlink', '/T.;1', '/t', '/abs/./x')]),
 }
 
 
+def random_udf_script(seed, nops=24, rr=False):
+    """a random well-formed edit history on a UDF bridge image (deterministic in the seed)"""
+    import random
+    rnd = random.Random('udf/%d/%s' % (seed, rr))
+    kw = dict(udf='2.60')
+    if rr:
+        kw['rock_ridge'] = '1.09'
+    dirs = {'': ''}         # iso dir -> udf dir
+    files = {}              # iso path -> udf path
+    links = []
+    ops = []
+    k = 0
+    alphabet = ['a', 'B', '-', ' ', '\u00e9', '\u4e2d', '_']
+    for _ in range(nops):
+        r = rnd.random()
+        parents = [d for d in dirs if d.count('/') < 5]
+        k += 1
+        uname = 'u%d' % k + ''.join(rnd.choice(alphabet) for _ in range(rnd.choice([0, 3, 20, 100, 200]) if rnd.random() < 0.5 else rnd.randint(0, 12)))
+        uname = uname[:120].rstrip(' ')          # a UDF identifier holds 254 bytes: 127 characters once one of them needs UTF-16
+        if r < 0.45 or not files:
+            d = rnd.choice(parents)
+            ip = '%s/F%d.;1' % (d, k)
+            up = dirs[d] + '/' + uname
+            ops.append(('file', ip, up, rnd.choice([0, 1, 2047, 2048, 2049, 4096, 6000])))
+            files[ip] = up
+        elif r < 0.65:
+            d = rnd.choice(parents)
+            ip = '%s/D%d' % (d, k)
+            up = dirs[d] + '/' + uname
+            ops.append(('dir', ip, up))
+            dirs[ip] = up
+        elif r < 0.8:
+            ip = rnd.choice(sorted(files))
+            ops.append(('rm_file', ip, files.pop(ip)))
+        elif r < 0.9:
+            empties = [d for d in dirs if d and not any(p.startswith(d + '/') for p in list(files) + list(dirs) + links)]
+            if empties:
+                d = rnd.choice(empties)
+                ops.append(('rm_dir', d, dirs.pop(d)))
+        elif rr:
+            d = rnd.choice(parents)
+            ip = '%s/S%d.;1' % (d, k)
+            up = dirs[d] + '/' + uname
+            ops.append(('symlink', ip, up, rnd.choice(['a', '../x', '/abs/./y', 'd/' + 'z' * 100])))
+            links.append(ip)
+    return kw, ops
+
+
+def get_udf_script(name):
+    if name.startswith('udf-random'):
+        parts = name.split(':')
+        return random_udf_script(int(parts[1]), int(parts[2]) if len(parts) > 2 else 24, rr=name.startswith('udf-random-rr'))
+    return UDF_SCRIPTS[name]
+
+
+def random_udf_names(tier, quick_n=2, thorough_n=20):
+    import os
+    base = int(os.environ.get('VERIF_SEED', '0') or 0) * 1000
+    n = quick_n if tier == 'quick' else thorough_n
+    return ['udf-random:%d' % (base + k) for k in range(1, n + 1)] + ['udf-random-rr:%d' % (base + k) for k in range(1, n // 2 + 1)]
+
+
 def build_udf(c, name):
-    kw, script = UDF_SCRIPTS[name]
+    kw, script = get_udf_script(name)
     iso = S.new_image(c, **kw)
     rr = 'rock_ridge' in kw
     contents = {}
@@ -749,7 +820,7 @@ class MasteredUDF(Base):
 
     def post(self, c, a, out):
         img = list(a.out.items) if c.symbolic else list(a.out.getvalue())
-        kw, script = UDF_SCRIPTS[self.script]
+        kw, script = get_udf_script(self.script)
         model, content_m = udf_model(script)
         try:
             u = UR.read_udf(img)
@@ -825,7 +896,7 @@ class ReopenedUDF(Base):
         return Call([a.fp], self_obj=a.re)
 
     def post(self, c, a, out):
-        kw, script = UDF_SCRIPTS[self.script]
+        kw, script = get_udf_script(self.script)
         model, content_m = udf_model(script)
         cl = {}
         ok, again = S.try_call(c, lambda: S.written(c, a.re))
@@ -833,6 +904,9 @@ class ReopenedUDF(Base):
         if ok:
             cl['remastering-is-a-fixpoint'] = Eq(again, a.img)
         files = [(op[1], op[2]) for op in script if op[0] == 'file' and op[2] in model]
+        # removing an EMPTY file from an opened image is K21's subject (script 'empty-files'); take a file with content if there is one
+        nonempty = [f for f in files if content_m[model[f[1]][1]]]
+        files = nonempty if (nonempty or self.script.startswith('udf-random')) else files
         extra = c.bytes('extra_content', 10)
         edit_ok = True
         if files:
